@@ -182,10 +182,62 @@ Ltac rdname Hb :=
     destruct (rd_name d o b) as [[[[? ?] ?] ?]|?|?]; [|exact I|exact G]; cbn [obind]
   end.
 
+Lemma rd8_ok' data i : 0 <= i < n6_len data -> exists b, rd8 data i = Ok b.
+Proof. apply rd8_ok. Qed.
+
+Lemma naptr_str_good data offset : bytes_ok data -> 0 <= offset ->
+  match naptr_str data offset with
+  | Panic _ => False
+  | Err _ => True
+  | Ok (_, o') => offset < o' <= n6_len data
+  end.
+Proof.
+  intros Hb H0. unfold naptr_str. destruct (n6_len data <? offset + 1) eqn:E; [exact I|].
+  unfold rd8. rewrite n6_idx_eq by lia. cbn [opt_out obind].
+  assert (Hbyte : 0 <= nthZ data (Z.to_nat offset) < 256) by (apply nthZ_ok; [exact Hb|unfold n6_len in *; lia]).
+  set (b := nthZ data (Z.to_nat offset)) in *.
+  destruct (n6_len data <? offset + 1 + b) eqn:E2; [exact I|].
+  rewrite rdsl_ok by lia. cbn [obind]. lia.
+Qed.
+
+Lemma opts_loop_np data : bytes_ok data -> forall fuel i acc,
+  0 <= i <= n6_len data -> n6_len data - i < Z.of_nat fuel -> out_np (opts_loop data fuel i acc).
+Proof.
+  intros Hb. induction fuel as [|f IH]; intros i acc H1 H2; [lia|].
+  - cbn [opts_loop]. destruct (i <? n6_len data) eqn:E; [|exact I].
+    destruct (n6_len data <? i + 4) eqn:E4; [exact I|].
+    destruct (rd16_ok data i) as [c Hc]; [lia|lia|]. rewrite Hc. cbn [obind].
+    destruct (rd16_ok data (i + 2)) as [l Hl]; [lia|lia|]. rewrite Hl. cbn [obind].
+    pose proof (rd16_nonneg _ _ _ Hb Hl).
+    destruct (i + 4 + l >? n6_len data) eqn:E5; [exact I|].
+    rewrite rdsl_ok by lia. cbn [obind]. apply IH; lia.
+Qed.
+
+Lemma svc_loop_np data : bytes_ok data -> forall fuel i acc,
+  0 <= i <= n6_len data -> n6_len data - i < Z.of_nat fuel -> out_np (svc_loop data fuel i acc).
+Proof.
+  intros Hb. induction fuel as [|f IH]; intros i acc H1 H2; [lia|].
+  - cbn [svc_loop]. destruct (i <? n6_len data) eqn:E; [|exact I].
+    destruct (i + 4 >? n6_len data) eqn:E4; [exact I|].
+    destruct (rd16_ok data i) as [c Hc]; [lia|lia|]. rewrite Hc. cbn [obind].
+    destruct (rd16_ok data (i + 2)) as [l Hl]; [lia|lia|]. rewrite Hl. cbn [obind].
+    pose proof (rd16_nonneg _ _ _ Hb Hl).
+    destruct (i + 4 + l >? n6_len data) eqn:E5; [exact I|].
+    rewrite rdsl_ok by lia. cbn [obind]. apply IH; lia.
+Qed.
+
+Ltac rd16s data := repeat match goal with |- context [rd16 data ?i] =>
+      let v := fresh "v" in let Hv := fresh "Hv" in destruct (rd16_ok data i) as [v Hv]; [lia|lia|]; rewrite Hv; cbn [obind] end.
+Ltac rd32s data := repeat match goal with |- context [rd32 data ?i] =>
+      let v := fresh "v" in let Hv := fresh "Hv" in destruct (rd32_ok data i) as [v Hv]; [lia|lia|]; rewrite Hv; cbn [obind] end.
+Ltac rd8s data := repeat match goal with |- context [rd8 data ?i] =>
+      let v := fresh "v" in let Hv := fresh "Hv" in destruct (rd8_ok data i) as [v Hv]; [lia|]; rewrite Hv; cbn [obind] end.
+
 Lemma decode_rdata_np r data offset buf : bytes_ok data -> bytes_ok (r_data r) -> 0 <= offset ->
+  n6_len data = offset + n6_len (r_data r) ->
   out_np (decode_rdata r data offset buf).
 Proof.
-  intros Hb Hd H0. unfold decode_rdata.
+  intros Hb Hd H0 Hlen. unfold decode_rdata. pose proof (n6_len_nonneg (r_data r)) as Hd0.
   destruct ((r_type r =? T_A) || (r_type r =? T_AAAA)); [exact I|].
   destruct ((r_type r =? T_TXT) || (r_type r =? T_HINFO)).
   { pose proof (char_strings_np (r_data r) Hd) as G. destruct (char_strings (r_data r)); cbn in *; auto. }
@@ -195,18 +247,41 @@ Proof.
   destruct (r_type r =? T_SOA).
   { rdname Hb. rdname Hb.
     match goal with |- context [n6_len data <? ?e + 20] => destruct (n6_len data <? e + 20) eqn:E; [exact I|] end.
-    repeat match goal with |- context [rd32 data ?i] =>
-      let v := fresh "v" in let Hv := fresh "Hv" in destruct (rd32_ok data i) as [v Hv]; [lia|lia|]; rewrite Hv; cbn [obind] end.
-    exact I. }
+    rd32s data. exact I. }
   destruct (r_type r =? T_MX).
-  { destruct (n6_len data <? offset + 2) eqn:E; [exact I|].
-    destruct (rd16_ok data offset) as [v Hv]; [lia|lia|]. rewrite Hv. cbn [obind]. rdname Hb. exact I. }
+  { destruct (n6_len data <? offset + 2) eqn:E; [exact I|]. rd16s data. rdname Hb. exact I. }
   destruct (r_type r =? T_SRV).
-  { destruct (n6_len data <? offset + 6) eqn:E; [exact I|].
-    repeat match goal with |- context [rd16 data ?i] =>
-      let v := fresh "v" in let Hv := fresh "Hv" in destruct (rd16_ok data i) as [v Hv]; [lia|lia|]; rewrite Hv; cbn [obind] end.
+  { destruct (n6_len data <? offset + 6) eqn:E; [exact I|]. rd16s data. rdname Hb. exact I. }
+  destruct (r_type r =? T_URI).
+  { destruct (n6_len (r_data r) <? 4) eqn:E; [exact I|]. rd16s data. rewrite rdsl_ok by lia. exact I. }
+  destruct (r_type r =? T_NAPTR).
+  { destruct (n6_len data <? offset + 4) eqn:E; [exact I|]. rd16s data.
+    pose proof (naptr_str_good data (offset + 4) Hb ltac:(lia)) as G1.
+    destruct (naptr_str data (offset + 4)) as [[s1 o1]|?|?]; [|exact I|exact G1]. cbn [obind].
+    pose proof (naptr_str_good data o1 Hb ltac:(lia)) as G2.
+    destruct (naptr_str data o1) as [[s2 o2]|?|?]; [|exact I|exact G2]. cbn [obind].
+    pose proof (naptr_str_good data o2 Hb ltac:(lia)) as G3.
+    destruct (naptr_str data o2) as [[s3 o3]|?|?]; [|exact I|exact G3]. cbn [obind].
     rdname Hb. exact I. }
-  match goal with |- context [if ?c then Err E_UNMODELLED else _] => destruct c end; exact I.
+  destruct (r_type r =? T_OPT).
+  { unfold decode_opts. destruct (offset =? n6_len data); [exact I|]. destruct (offset + 4 >? n6_len data) eqn:Eo4; [exact I|].
+    pose proof (opts_loop_np data Hb (S (length data)) offset [] ltac:(lia) ltac:(unfold n6_len; lia)) as G.
+    destruct (opts_loop data (S (length data)) offset []); cbn in *; auto. }
+  destruct (r_type r =? T_RRSIG).
+  { destruct (n6_len data <? offset + 18) eqn:E; [exact I|]. rd16s data. rd8s data. rd32s data. rd16s data.
+    pose proof (decode_name_good data (offset + 18) [] Hb) as G.
+    destruct (decode_name data (offset + 18) []) as [nm l next sbuf|?|?]; cbn in G; [|exact I|exact G].
+    rewrite rdsl_ok by lia. exact I. }
+  destruct (r_type r =? T_DNSKEY).
+  { destruct (n6_len data <? offset + 4) eqn:E; [exact I|]. rd16s data. rd8s data. rewrite rdsl_ok by lia. exact I. }
+  destruct ((r_type r =? T_SVCB) || (r_type r =? T_HTTPS)); [|exact I].
+  destruct (offset =? n6_len data) eqn:E1; [exact I|]. destruct (offset + 3 >? n6_len data) eqn:E2; [exact I|].
+  rd16s data.
+  match goal with |- context [rd_name ?d ?o ?b] =>
+    let G := fresh "G" in pose proof (rd_name_good d o b Hb) as G;
+    destruct (rd_name d o b) as [[[[tg l] ofs] buf']|?|?]; [|exact I|exact G]; cbn [obind] end.
+  pose proof (svc_loop_np data Hb (S (length data)) ofs [] ltac:(lia) ltac:(unfold n6_len; lia)) as G2.
+  destruct (svc_loop data (S (length data)) ofs []); cbn in *; auto.
 Qed.
 
 Lemma rr_decode_good data offset buf : bytes_ok data -> 0 <= offset ->
@@ -232,7 +307,8 @@ Proof.
   assert (Hr : r_data r = rdata) by (unfold r, rr_meta_name; destruct l; reflexivity).
   pose proof (decode_rdata_np r (slice data (Z.to_nat 0) (Z.to_nat (endq + 10 + dl))) (endq + 10) buf1) as P.
   destruct (decode_rdata r _ (endq + 10) buf1) as [[r' buf2]|e|s]; cbn [obind]; [lia|exact I|].
-  apply P; [apply bytes_ok_slice, Hb|rewrite Hr; apply bytes_ok_slice, Hb|lia].
+  apply P; [apply bytes_ok_slice, Hb|rewrite Hr; apply bytes_ok_slice, Hb|lia|].
+  rewrite Hr. unfold rdata, n6_len. rewrite !slice_length by (unfold n6_len in *; lia). lia.
 Qed.
 
 Lemma q_loop_np data : bytes_ok data -> forall n offset buf acc, 0 <= offset ->
